@@ -125,7 +125,12 @@ pub const SIM_ENUM_LANGUAGE: &[(&str, &str)] = &[("fast", "Fast"), ("slow", "Slo
 
 /// (unsigned target?, lowest, highest) of the language of `ValParser::Edge(k)`; lowest > highest = empty.
 pub fn edge_language(k: u8) -> (bool, i128, i128) {
-    match k % 12 {
+    match k % 15 {
+        // parsers constructed directly for a narrow target type (not through value_parser!): the conversion
+        // into the target type is then the last line of defence
+        12 => (true, 0, 65535),                              // RangedU64ValueParser::<u16>::new()
+        13 => (false, -128, 127),                            // RangedI64ValueParser::<i8>::new()
+        14 => (true, 1, 255),                                // RangedU64ValueParser::<u8>::new().range(1..1000)
         10 => (true, 10, 99),                                // u64 .range(10..).range(..100): a later range keeps the earlier bound
         11 => (false, -5, 5),                                // i64 .range(-5..).range(..=5)
         0 => (true, 0, -1),                                  // u64 ..0
@@ -647,7 +652,10 @@ pub fn build_arg(a: &ArgSpec) -> Arg {
             ValParser::EnumVp => x.value_parser(clap::builder::EnumValueParser::<SimEnum>::new()),
             ValParser::Edge(k) => {
                 use std::ops::Bound::{Excluded, Unbounded};
-                match k % 12 {
+                match k % 15 {
+                    12 => x.value_parser(clap::builder::RangedU64ValueParser::<u16>::new()),
+                    13 => x.value_parser(clap::builder::RangedI64ValueParser::<i8>::new()),
+                    14 => x.value_parser(clap::builder::RangedU64ValueParser::<u8>::new().range(1..1000)),
                     10 => x.value_parser(clap::value_parser!(u64).range(10..).range(..100)),
                     11 => x.value_parser(clap::value_parser!(i64).range(-5..).range(..=5)),
                     0 => x.value_parser(clap::value_parser!(u64).range(..0)),
